@@ -820,7 +820,7 @@ pub fn generate(run_seed: u64, mode: &'static str, recvs: &'static std::collecti
 // ------------------------------------------------------------------------------------------------
 // element-level workloads
 
-pub const ELEM_RECEIVERS: [&str; 22] = ["VR4", "TR3", "FR5", "VR3", "TR2", "DI8", "FR4", "DI7", "FR1", "FR2", "FR3", "VR1", "VR2", "TR1", "DI1", "DI2", "DI3", "DI4", "DI5", "DI6", "AT1", "AT2"];
+pub const ELEM_RECEIVERS: [&str; 26] = ["DI9", "VR5", "AT3", "FR6", "VR4", "TR3", "FR5", "VR3", "TR2", "DI8", "FR4", "DI7", "FR1", "FR2", "FR3", "VR1", "VR2", "TR1", "DI1", "DI2", "DI3", "DI4", "DI5", "DI6", "AT1", "AT2"];
 
 const FOREIGN: [&str; 8] = ["doc = \"hi\"", "cfg(test)", "keep", "keep(1 2)", "derive(Debug)", "other(a = 1)", "allow(dead_code)", "zz::yy(=)"];
 
